@@ -8,7 +8,10 @@ table; missing-key configurations are rejected with an error naming exactly what
 hold (nothing at all: the empty group; a non-mapping in the place of a group is rejected).  The table of a seeded
 specification does not depend on the releases made earlier in the process (families of near-identical specifications:
 long outlines and tables revised in the middle, changes behind the eighth decimal, a GeoJSON path with new content),
-judged against the command line in a process of its own.
+judged against the command line in a process of its own.  The table depends on the content of the specification only:
+a configuration in which one sub-object stands at several places (YAML anchors / aliases / merge keys, a re-used Python
+variable) gives the table of the same specification written out with separate equal copies, and the caller's object is
+after the call what it was before (passed again, it gives the same table again).
 Correspondence: `load_config` validation against the Lean `Table.validate` for every missing-key
 combination; container normalisation through the table model (shared with C01)."""
 import importlib, importlib.util, io, os, sys, tempfile, shutil, subprocess, itertools, re, copy, datetime, math, json
@@ -67,7 +70,24 @@ RULE = ("YAML-serialisable configurations: 1..4 groups, num in {0,1,2,3,7,40}, a
         "(up to 5 quick / 24 thorough); (c) a non-mapping in the place of a group (None = a dangling hyphen in the YAML "
         "list, [], '', 0, False) at every position of 1..3 groups, the other groups random as in (b), list / grouped "
         "with / without seed, object / YAML stream (the None as a bare `-`) / YAML file: rejected (ValueError or "
-        "TypeError), no file. Non-trivial: every configuration.")
+        "TypeError), no file. Aliasing inside a configuration (2 quick / 8 thorough rounds over 23 kinds in shuffled "
+        "order): 1..3 groups of 7 / 40 / 100 particles (point or small polygon) in which ONE sub-object stands at several "
+        "places: an attribute specification (exponential without / with `max`, gaussian without / with `min` / `max` / "
+        "both, explicit uniform, piecewise, two-number range, list of num values; keys in shuffled order; bounds 0.25 .. "
+        "1.5 scale units from the mean) under one name in 2..all groups / under two names of one group / at group level "
+        "and under `attrs`; an `attrs` mapping, a `depth` range, the `cdf` / `knots` tables of two piecewise "
+        "specifications, a location (point, polygon, multipolygon, the coordinate lists of one ring in a polygon and a "
+        "multipolygon, centre+offset mapping, a point that is another group's centre with a shared offset), a date span, a "
+        "whole group two or three times, a shallow copy of a group (values shared), a list-valued seed that is also an "
+        "attribute's range; 50% of the groups with a later attribute of their own; with / without `columns`. Supplied as "
+        "grouped mapping with / without seed, list of groups, (one group) flat mapping with / without seed, each as Python "
+        "object with the shared objects, YAML stream and YAML file with anchors / aliases (as yaml.safe_dump writes them), "
+        "the shallow copy also as a YAML merge key (`<<: *base`) document; seedless containers with the caller seeding "
+        "numpy's real generator; against the same specification written out with separate equal copies; the caller's "
+        "object compared (content, key order, cell types) before / after every call; one mapping object (sub-objects "
+        "shared / written out / flat) passed three times; one `groups` list object handed over as list, grouped, flat, "
+        "seedless grouped, list again; the text written to a handle; 8 quick / 46 thorough documents with anchors / merge "
+        "key through `python -m ladim_plugins.release` in a process of its own. Non-trivial: every configuration.")
 ASSUMPTIONS = ["yaml.safe_load / pandas.to_csv / the CLI are exercised, not modelled",
                "the one-argument command line prints pandas' default rendering of the table: it is compared for tables of "
                "four columns and at most 50 rows (no truncation, no wrapping), numbers at the display precision of 6 digits"]
@@ -1125,6 +1145,455 @@ def other_keys_checks(ctx, mk, yaml, tmp, cli, drv, pend, base, keys):
                                    "group %d of %d is %r (error %r) but an output file was written" % (at, ng, nm, err), cs)
 
 
+# ---- aliasing inside a configuration.  The table is a function of the specification's *content*: a configuration in
+# which one sub-object (a distribution mapping, a range / value list, a location, a date span, an `attrs` mapping, a
+# whole group, ...) stands at several places — what a YAML anchor / alias (`w: &a {...}` ... `w: *a`; yaml.safe_load
+# builds ONE object for both places, yaml.safe_dump writes anchors by itself for an object met twice), a YAML merge key
+# (`<<: *base`) or a Python script re-using one variable gives — is the same specification as the one written out with
+# separate equal copies.  And the caller's configuration is not consumed: the object passed is, after the call, what it
+# was before, so that passing it again (seeded) gives the same table again.
+ALIAS_ATTR_KINDS = ["attr.exp_max", "attr.exp", "attr.gauss", "attr.gauss_min", "attr.gauss_max", "attr.gauss_min_max",
+                    "attr.uniform", "attr.piece", "attr.range", "attr.list"]
+# (the value kinds an `attrs` mapping / a repeated group carries: those with optional keys twice as often)
+ALIAS_PAYLOAD_KINDS = ["attr.exp_max", "attr.exp_max", "attr.gauss_min_max", "attr.gauss_max", "attr.gauss_min", "attr.exp",
+                       "attr.gauss", "attr.uniform", "attr.piece", "attr.range"]
+ALIAS_KINDS = ALIAS_ATTR_KINDS + ["attrs.mapping", "depth.range", "piece.tables", "loc.point", "loc.poly", "loc.multi", "loc.ring",
+                                  "loc.offset", "loc.offset_center", "date.span", "group.twice", "group.shallow_copy",
+                                  "seed.list_as_range"]
+ALIAS_NAMES = ["w", "len", "depth", "sink_vel", "q"]
+
+
+def unshared(o):
+    """the same content with no object standing at two places (copy.deepcopy keeps shared sub-objects shared)"""
+    if isinstance(o, dict):
+        return {k: unshared(v) for k, v in o.items()}
+    if isinstance(o, list):
+        return [unshared(v) for v in o]
+    return o
+
+
+def frozen(o):
+    """the content of a configuration object with key order and cell types (the caller's object before / after a call)"""
+    if isinstance(o, dict):
+        return ("dict", tuple((k, frozen(v)) for k, v in o.items()))
+    if isinstance(o, list):
+        return ("list", tuple(frozen(v) for v in o))
+    return (type(o).__name__, repr(o))
+
+
+def shared_places(o):
+    """number of mappings / lists inside `o` that stand at more than one place"""
+    seen = {}
+
+    def walk(x):
+        if isinstance(x, (dict, list)):
+            seen[id(x)] = seen.get(id(x), 0) + 1
+            if seen[id(x)] == 1:
+                for v in (x.values() if isinstance(x, dict) else x):
+                    walk(v)
+    walk(o)
+    return sum(1 for n in seen.values() if n > 1)
+
+
+def shuffled_keys(rng, d):
+    ks = list(d)
+    rng.shuffle(ks)
+    return {k: d[k] for k in ks}
+
+
+def alias_value(rng, kind, num):
+    """an attribute specification of the given kind (a mapping or a list: something that can stand at several places).
+    Bounds lie well inside the distribution, so that a draw beyond them is the rule, not the exception."""
+    if kind in ("attr.exp", "attr.exp_max"):
+        mean = rng.choice([0.01, 1.0, 10.0])
+        d = dict(distribution="exponential", mean=mean)
+        if kind == "attr.exp_max":
+            d["max"] = mean * rng.choice([0.25, 0.5, 1.0, 1.5])         # (a fraction exp(-0.25) .. exp(-1.5) of the draws is cut)
+        return shuffled_keys(rng, d)
+    if kind.startswith("attr.gauss"):
+        mean, std = rng.choice([5.0, 40.0]), rng.choice([1.0, 10.0])
+        d = dict(distribution="gaussian", mean=mean, std=std)
+        if kind in ("attr.gauss_min", "attr.gauss_min_max"):
+            d["min"] = mean - std * rng.choice([0.25, 0.5, 1.0])
+        if kind in ("attr.gauss_max", "attr.gauss_min_max"):
+            d["max"] = mean + std * rng.choice([0.25, 0.5, 1.0])
+        return shuffled_keys(rng, d)
+    if kind == "attr.uniform":
+        a = round(rng.uniform(0.0, 10.0), 2)
+        return shuffled_keys(rng, dict(distribution="uniform", min=a, max=a + rng.randrange(1, 10)))
+    if kind == "attr.piece":
+        n = rng.randrange(3, 7)
+        knots = [0.0]
+        for _ in range(n - 1):
+            knots.append(round(knots[-1] + rng.uniform(1.0, 5.0), 3))
+        # (strictly increasing: interior points move by less than half a step)
+        cdf = [0.0] + [round((i + rng.uniform(-0.3, 0.3)) / (n - 1), 4) for i in range(1, n - 1)] + [1.0]
+        return shuffled_keys(rng, dict(distribution="piecewise", knots=knots, cdf=cdf))
+    if kind == "attr.range":
+        a = round(rng.uniform(0.0, 10.0), 2)
+        return [a, a + rng.randrange(1, 10)]
+    assert kind == "attr.list", kind
+    return [float(rng.randrange(50)) for _ in range(num)]
+
+
+def alias_outline(rng, cx, cy, r):
+    """a small simple polygon around (cx, cy) as (lons, lats)"""
+    th, rad = star_outline(rng, rng.randrange(3, 9), r)
+    xs, ys = outline_xy(th, rad, cx, cy, rng.random() < 0.5)
+    return [round(x, 5) for x in xs], [round(y, 5) for y in ys]
+
+
+def alias_spec(rng, kind):
+    """The groups of a configuration in which one sub-object of the given kind stands at several places.
+    Returns (groups, placement tag, seed object or None)."""
+    place = kind.split(".")[0]
+    ng = rng.choice([2, 2, 3])
+    if kind in ALIAS_ATTR_KINDS:
+        place = rng.choice(["across_groups", "across_groups", "attrs_of_one_group", "group_level_and_attrs"])
+        if place == "attrs_of_one_group":
+            ng = rng.choice([1, 1, 2])
+    elif kind in ("piece.tables", "seed.list_as_range") and rng.random() < 0.3:
+        ng = 1
+    num0 = rng.choice([7, 40, 100])
+    groups = []
+    for g in range(ng):
+        lon, lat = round(rng.uniform(-20, 30), 4), round(rng.uniform(50, 75), 4)
+        loc = [lon, lat]
+        if rng.random() < 0.4:
+            loc = list(alias_outline(rng, lon, lat, 0.3))
+        groups.append(dict(num=num0 if kind == "attr.list" else rng.choice([7, 40, 100]),
+                           date=rng.choice(["2015-04-01 00:00:00", ["2015-04-01T00:00:00", "2015-04-02T06:00:00"],
+                                            ["2000-01-0%d 00:00" % (g + 1), "2000-01-0%d 12:00" % (g + 2)]]),
+                           location=loc, group_id=g + 1))
+    seed_obj = None
+
+    def put(g, where, name, v):
+        if where == "attrs":
+            groups[g].setdefault("attrs", {})[name] = v
+        else:
+            groups[g][name] = v
+
+    def where():
+        return "attrs" if rng.random() < 0.35 else "group"
+    if kind in ALIAS_ATTR_KINDS:
+        v = alias_value(rng, kind, num0)
+        n1, n2 = rng.sample(ALIAS_NAMES, 2)
+        if place == "across_groups":
+            users = rng.sample(range(ng), rng.randrange(2, ng + 1))
+            for g in sorted(users):
+                put(g, where(), n1, v)
+            for g in range(ng):
+                if g not in users and rng.random() < 0.5:
+                    put(g, where(), n1, alias_value(rng, kind, num0))        # an equal-kind specification of its own
+        elif place == "attrs_of_one_group":
+            g = rng.randrange(ng)
+            put(g, where(), n1, v)
+            put(g, where(), n2, v)
+        else:
+            put(0, "group", n1, v)
+            put(ng - 1, "attrs", n2 if (ng == 1 or rng.random() < 0.5) else n1, v)
+            if ng == 3:
+                put(1, where(), n1, v)
+    elif kind == "attrs.mapping":
+        a = {}
+        for nm in rng.sample(ALIAS_NAMES, rng.randrange(1, 3)):
+            a[nm] = alias_value(rng, rng.choice(ALIAS_PAYLOAD_KINDS), num0)
+        if rng.random() < 0.5:
+            a["stage"] = rng.choice([0, 3, 2.5])
+        for g in range(ng):
+            groups[g]["attrs"] = a
+    elif kind == "depth.range":
+        d = [0, rng.choice([10, 2.5, 100])]
+        for g in range(ng):
+            groups[g]["depth"] = d
+    elif kind == "piece.tables":
+        # two piecewise specifications of their own whose `cdf` (and possibly `knots`) tables are one list object
+        p1 = alias_value(rng, "attr.piece", num0)
+        p2 = dict(p1)
+        if rng.random() < 0.5:
+            p2["knots"] = [round(k * 2.0 + 1.0, 3) for k in p1["knots"]]
+        put(0, where(), "q", p1)
+        if ng == 1:
+            put(0, where(), "w", p2)
+        else:
+            put(ng - 1, where(), rng.choice(["q", "w"]), p2)
+    elif kind.startswith("loc."):
+        lon, lat = round(rng.uniform(-20, 30), 4), round(rng.uniform(50, 75), 4)
+        users = sorted(rng.sample(range(ng), rng.randrange(2, ng + 1)))
+        if kind == "loc.point":
+            shared = [lon, lat]
+        elif kind == "loc.poly":
+            shared = list(alias_outline(rng, lon, lat, 0.3))
+        elif kind == "loc.multi":
+            parts = [alias_outline(rng, lon + 2.0 * q, lat, 0.3) for q in range(rng.randrange(2, 4))]
+            shared = [[p[0] for p in parts], [p[1] for p in parts]]
+        elif kind == "loc.offset":
+            xs, ys = alias_outline(rng, 0.0, 0.0, rng.uniform(50.0, 2000.0))
+            shared = dict(center=[lon, lat], offset=[xs, ys])
+        else:
+            shared = None
+        if shared is not None:
+            for g in users:
+                groups[g]["location"] = shared
+        elif kind == "loc.ring":
+            # the coordinate lists of one outline: a polygon of its own in one group, a part of a multipolygon in another
+            xs, ys = alias_outline(rng, lon, lat, 0.3)
+            xo, yo = alias_outline(rng, lon + 2.0, lat, 0.3)
+            groups[users[0]]["location"] = [xs, ys]
+            for g in users[1:]:
+                groups[g]["location"] = [[xo, xs], [yo, ys]] if rng.random() < 0.5 else [[xs, xo], [ys, yo]]
+        else:
+            # loc.offset_center: the point of one group is the centre of another group's metric outline
+            c = [lon, lat]
+            xs, ys = alias_outline(rng, 0.0, 0.0, rng.uniform(50.0, 2000.0))
+            off = [xs, ys]
+            groups[users[0]]["location"] = c
+            for g in users[1:]:
+                groups[g]["location"] = dict(center=c, offset=off)
+    elif kind == "date.span":
+        d = ["2015-04-01T00:00:00", rng.choice(["2015-04-02T06:00:00", "2015-04-01T00:00:00", "2015-06-01"])]
+        for g in range(ng):
+            groups[g]["date"] = d
+    elif kind in ("group.twice", "group.shallow_copy"):
+        pk = rng.choice(ALIAS_PAYLOAD_KINDS)
+        put(0, where(), rng.choice(ALIAS_NAMES), alias_value(rng, pk, groups[0]["num"]))
+        if rng.random() < 0.5:
+            put(0, where(), "stage", alias_value(rng, rng.choice(ALIAS_PAYLOAD_KINDS), groups[0]["num"]))
+        if kind == "group.twice":
+            # the very same group two or three times (another group possibly in between)
+            groups = rng.choice([[groups[0], groups[0]], [groups[0], groups[1], groups[0]], [groups[0]] * 3,
+                                 [groups[1], groups[0], groups[0]]])
+        else:
+            # what `dict(g, group_id=2)` in a script / `<<: *base` in a YAML file gives: a group of its own whose
+            # values are the objects of the first
+            g2 = dict(groups[0], group_id=2)
+            if rng.random() < 0.5:
+                g2["num"] = rng.choice([7, 40, 100])
+            groups = [groups[0], g2] + ([groups[2]] if ng == 3 else [])
+    else:
+        assert kind == "seed.list_as_range", kind
+        # a list-valued seed (numpy accepts a sequence) that is also the range of an attribute
+        a = rng.randrange(0, 50)
+        seed_obj = [a, a + rng.randrange(1, 50)]
+        for g in rng.sample(range(ng), rng.randrange(1, ng + 1)):
+            put(g, where(), rng.choice(ALIAS_NAMES), seed_obj)
+    # attributes of their own behind the shared ones (their draws come later in the stream)
+    # (not in a shallow-copied pair: the second group differs from the first in `group_id` / `num` only)
+    for g_ in groups[2:] if kind == "group.shallow_copy" else groups:
+        if "zz" not in g_ and rng.random() < 0.5:
+            g_["zz"] = alias_value(rng, rng.choice(["attr.gauss", "attr.range", "attr.exp"]), g_["num"])
+    return groups, place, seed_obj
+
+
+def merge_key_yaml(yaml, conf):
+    """the grouped document of a `group.shallow_copy` configuration written with a YAML merge key: the second group is
+    `<<: *base` plus the keys in which it differs from the first"""
+    g1, g2 = conf["groups"][0], conf["groups"][1]
+    assert list(g1) == list(g2) and all(g2[k] is g1[k] or k in ("group_id", "num") for k in g1)
+    head = {k: v for k, v in conf.items() if k != "groups"}
+    text = yaml.safe_dump(head, sort_keys=False) if head else ""
+    text += "groups:\n- &base\n"
+    text += "".join("  " + l + "\n" for l in yaml.safe_dump(unshared(g1), sort_keys=False).splitlines())
+    text += "- <<: *base\n"
+    for k in g1:
+        if g2[k] is not g1[k] and g2[k] != g1[k]:
+            text += "  %s: %r\n" % (k, g2[k])
+    for g in conf["groups"][2:]:
+        lines = yaml.safe_dump(unshared(g), sort_keys=False).splitlines()
+        text += "- " + lines[0] + "\n" + "".join("  " + l + "\n" for l in lines[1:])
+    return text
+
+
+def alias_checks(ctx, mk, yaml, tmp, cli):
+    """Configurations with shared sub-objects against the same specification written out with separate equal copies,
+    in every container; the caller's object before / after the call; the same object passed again."""
+    site = SITE + "::make_release"
+    kinds = list(ALIAS_KINDS)
+    ctx.rng.shuffle(kinds)
+    n_cli = 0
+    for c in range(ctx.n(2, 8) * len(kinds)):
+        kind = kinds[c % len(kinds)]
+        groups, place, seed_obj = alias_spec(ctx.rng, kind)
+        ng = len(groups)
+        seed = seed_obj if seed_obj is not None else (ctx.rng.choice(SPECIAL_SEEDS) if ctx.rng.random() < 0.3 else ctx.rng.randrange(2**32))
+        master = dict(seed=seed, groups=groups)
+        assert shared_places(master) >= 1, (kind, master)
+        plain = unshared(master)
+        assert shared_places(plain) == 0 and plain == master
+        cs = dict(config=plain, shared_kind=kind, placement=place,
+                  config_yaml_with_anchors=yaml.safe_dump(master, sort_keys=False))
+        ctx.case(key=("alias", repr(plain), kind, place), nontrivial=True)
+        ctx.branch("alias"); ctx.branch("alias.kind." + kind); ctx.branch("alias.place." + place); ctx.branch("alias.ngroups.%d" % ng)
+        # the reference: the specification written out with separate equal copies
+        ref_nc, err = attempt(lambda: mk.make_release(unshared(master)))
+        if not ctx.oracle(err is None, "C18.alias.valid_rejected", site, "the specification written out with separate copies is rejected: %s" % err, cs):
+            continue
+        cols = None
+        if ctx.rng.random() < 0.4:
+            hdr0 = list(ref_nc.keys())
+            cols = ctx.rng.sample(hdr0, ctx.rng.randrange(1, len(hdr0) + 1))
+            cs["config"] = dict(seed=plain["seed"], columns=cols, groups=plain["groups"])
+        ctx.branch("alias.columns" if cols is not None else "alias.default_columns")
+
+        def make(form, shared=True):
+            """a fresh configuration object of the given shape; `shared`: with the sub-objects shared as in `master`
+            (copy.deepcopy keeps the sharing, also between the seed and an attribute), otherwise written out"""
+            m = copy.deepcopy(master)
+            if not shared:
+                m = unshared(m)
+            if form == "list":
+                return m["groups"]
+            d = {}
+            if not form.endswith("_seedless"):
+                d["seed"] = m["seed"]
+            if cols is not None:
+                d["columns"] = list(cols)
+            if form.startswith("flat"):
+                d.update(m["groups"][0])
+            else:
+                d["groups"] = m["groups"]
+            return d
+        assert shared_places(make("grouped")) == shared_places(master)
+        ref = ref_nc if cols is None else mk.make_release(make("grouped", shared=False))
+        h_ref = io.StringIO(); mk.make_release(make("grouped", shared=False), h_ref)
+        want_text = h_ref.getvalue().replace("\r\n", "\n")
+        forms = [("grouped", True, True), ("grouped_seedless", False, True), ("list", False, False)]
+        # (a flat mapping holds one group; its keys `seed` / `columns` are the global parameters)
+        if ng == 1:
+            forms += [("flat", True, True), ("flat_seedless", False, True)]
+        for form, seeded, keeps_cols in forms:
+            want = ref if keeps_cols else ref_nc
+            ytext = yaml.safe_dump(make(form), sort_keys=False, allow_unicode=bool(c % 2))
+            # (the YAML text does hold anchors and loads to the same content with shared objects)
+            # (a list-valued seed shared with one attribute only: nothing is shared in the containers without a seed)
+            loaded = yaml.safe_load(ytext)
+            assert loaded == make(form, shared=False), ytext
+            if shared_places(make(form)) >= 1:
+                assert "&id001" in ytext and "*id001" in ytext and shared_places(loaded) >= 1, ytext
+            else:
+                ctx.branch("alias.nothing_shared_in_this_container")
+            for via in ("object", "yaml_stream", "yaml_file"):
+                obj = None
+                if via == "object":
+                    obj = make(form)
+                    supplied = obj
+                elif via == "yaml_stream":
+                    supplied = io.StringIO(ytext)
+                else:
+                    supplied = os.path.join(tmp, "alias_%s.yaml" % form)
+                    with open(supplied, "w", encoding="utf8") as f:
+                        f.write(ytext)
+                before = frozen(obj)
+                # a container that carries the seed does not depend on the generator's state (put to some other state
+                # here); for one that does not, the caller seeds (as in seedless_checks)
+                s0 = 424242 if seeded else seed
+                what = "np.random.seed(%r); make_release(<%s, %s, sub-objects shared>)" % (s0, form, via)
+                scs = dict(cs, container=form, via=via, caller_seed=s0, supplied=ytext)
+                got, err = attempt(lambda: caller_seeded(s0, lambda: mk.make_release(supplied)))
+                ctx.branch("alias.%s.%s" % (form, via))
+                if not ctx.oracle(err is None, "C18.alias.valid_rejected", site,
+                                  "%s is rejected (%s), the same specification with separate copies gives a table" % (what, err), scs):
+                    continue
+                ok, msg = tables_equal(want, got)
+                ctx.oracle(ok, "C18.alias.%s.%s_differs" % (form, via), site,
+                           "%s differs from the same specification written out with separate equal copies "
+                           "(grouped mapping, seed %r): %s" % (what, seed, msg), scs)
+                if ok:
+                    ok, msg = types_equal(want, got)
+                    ctx.oracle(ok, "C18.container.cell_type_differs", site, "%s: %s" % (what, msg), scs)
+                if obj is not None:
+                    same = frozen(obj) == before
+                    ctx.oracle(same, "C18.alias.config_consumed", site,
+                               "" if same else "%s: the caller's configuration object is another after the call: %r, before %r"
+                               % (what, obj, make(form, shared=False)), scs)
+        # the same object passed again and again (a caller looping over one configuration): with sub-objects shared,
+        # and written out with separate copies (every sub-object used once per call)
+        for label, obj in (("shared", make("grouped")), ("separate", make("grouped", shared=False)),
+                           ("flat_shared", make("flat") if len(forms) > 3 else None)):
+            if obj is None:
+                continue
+            before = frozen(obj)
+            ctx.branch("alias.same_object." + label)
+            for k in range(3):
+                r_, err = attempt(lambda: mk.make_release(obj))
+                ok, msg = (False, "rejected: %s" % err) if r_ is None else tables_equal(ref, r_)
+                ctx.oracle(ok, "C18.alias.same_object_not_reproducible", site,
+                           "call %d with one and the same seeded mapping object (sub-objects %s) differs from the seeded run "
+                           "of a fresh equal configuration: %s" % (k + 1, label, msg), dict(cs, sub_objects=label, call=k + 1))
+                same = frozen(obj) == before
+                ctx.oracle(same, "C18.alias.config_consumed", site,
+                           "" if same else "after call %d the caller's mapping (sub-objects %s) is %r, it was %r"
+                           % (k + 1, label, obj, make("flat" if label == "flat_shared" else "grouped", shared=False)),
+                           dict(cs, sub_objects=label, call=k + 1))
+        # one `groups` list object handed over in several containers, one after the other
+        gl = make("list")
+        before = frozen(gl)
+        ctx.branch("alias.groups_object_reused")
+        uses = [("list", lambda: caller_seeded(seed, lambda: mk.make_release(gl))),
+                ("grouped", lambda: mk.make_release(dict(seed=copy.deepcopy(seed), groups=gl))),
+                ("grouped_seedless", lambda: caller_seeded(seed, lambda: mk.make_release(dict(groups=gl)))),
+                ("list", lambda: caller_seeded(seed, lambda: mk.make_release(gl)))]
+        if len(forms) > 3:
+            uses.insert(2, ("flat", lambda: mk.make_release(dict(gl[0], seed=copy.deepcopy(seed)))))
+        for k, (form, use) in enumerate(uses):
+            r_, err = attempt(use)
+            ok, msg = (False, "rejected: %s" % err) if r_ is None else tables_equal(ref_nc, r_)
+            ucs = dict(cs, config=dict(seed=plain["seed"], groups=plain["groups"]), use=k + 1, container=form)
+            ctx.oracle(ok, "C18.alias.groups_object_reused_differs", site,
+                       "use %d of one groups object (as %s, seed %r) differs from the seeded run of a fresh equal configuration: %s"
+                       % (k + 1, form, seed, msg), ucs)
+            same = frozen(gl) == before
+            ctx.oracle(same, "C18.alias.config_consumed", site,
+                       "" if same else "after use %d (as %s) the caller's groups object is %r, it was %r" % (k + 1, form, gl, make("list", shared=False)), ucs)
+        # the file written: the text the written-out specification writes
+        h = io.StringIO()
+        _, err = attempt(lambda: mk.make_release(make("grouped"), h))
+        ctx.oracle(err is None and h.getvalue().replace("\r\n", "\n") == want_text, "C18.alias.file_differs", site,
+                   "the text written for the configuration with shared sub-objects differs from the text written for "
+                   "separate equal copies (%s)" % err, cs)
+        # the merge-key document of a shallow-copied group
+        docs = [("anchors", yaml.safe_dump(make("grouped"), sort_keys=False))]
+        if kind == "group.shallow_copy":
+            mtext = merge_key_yaml(yaml, make("grouped"))
+            loaded = yaml.safe_load(mtext)
+            assert loaded == make("grouped", shared=False) and [list(g) for g in loaded["groups"]] == [list(g) for g in groups], mtext
+            ctx.branch("alias.merge_key")
+            docs.append(("merge_key", mtext))
+            for via in ("yaml_stream", "yaml_file"):
+                if via == "yaml_stream":
+                    supplied = io.StringIO(mtext)
+                else:
+                    supplied = os.path.join(tmp, "alias_merge.yaml")
+                    with open(supplied, "w", encoding="utf8") as f:
+                        f.write(mtext)
+                got, err = attempt(lambda: caller_seeded(424242, lambda: mk.make_release(supplied)))
+                ok, msg = (False, "rejected: %s" % err) if got is None else tables_equal(ref, got)
+                ctx.oracle(ok, "C18.alias.merge_key.%s_differs" % via, site,
+                           "the document with a YAML merge key (%s) differs from the same specification written out: %s" % (via, msg),
+                           dict(cs, via=via, supplied=mtext))
+        # the command line in a process of its own on the document with anchors / merge key
+        # (the first two rounds over the shuffled kinds in the thorough tier; a sample in the quick tier)
+        for dname, dtext in docs:
+            if n_cli >= ctx.n(8, 46) or (dname == "anchors" and ctx.tier != "thorough" and kind not in kinds[:5]):
+                continue
+            n_cli += 1
+            ctx.branch("alias.cli"); ctx.branch("alias.cli." + dname)
+            p_in = os.path.join(tmp, "alias_cli%d_%s.yaml" % (c, dname)); p_cli = os.path.join(tmp, "alias_cli%d_%s.rls" % (c, dname))
+            with open(p_in, "w", encoding="utf8") as f:
+                f.write(dtext)
+
+            def then(rc, out, serr, p_cli=p_cli, want_text=want_text, dname=dname, ccs=dict(cs, via="command line", cli_yaml=dtext)):
+                got = None
+                if os.path.exists(p_cli):
+                    with open(p_cli, encoding="utf8") as fh:
+                        got = fh.read()
+                ctx.oracle(rc == 0 and got == want_text, "C18.alias.cli_differs", MAIN,
+                           "`python -m ladim_plugins.release` on the YAML document with %s writes another file than make_release writes "
+                           "for the same specification written out with separate copies (rc=%d %s)" % (dname, rc, serr[-200:]), ccs)
+            cli.launch([sys.executable, "-m", "ladim_plugins.release", p_in, p_cli], then)
+    cli.drain()
+
+
 def run(ctx):
     import yaml
     mk = importlib.import_module("ladim_plugins.release.makrel")
@@ -1590,6 +2059,10 @@ def run(ctx):
                 c01.run(ctx)
             finally:
                 ctx.tier = saved
+        # ---- aliasing inside a configuration: one sub-object at several places (YAML anchors / merge keys, a re-used
+        # Python variable) against the same specification written out; the caller's object is not consumed
+        # (last, so that the random stream of the checks above is what it was)
+        alias_checks(ctx, mk, yaml, tmp, cli)
     finally:
         for p, _ in cli.pending:
             try:
